@@ -14,7 +14,20 @@ AE = "bibtexparser.middlewares.enclosing.AddEnclosingMiddleware."
 MO = "bibtexparser.middlewares.month."
 LB = "bibtexparser.library.Library."
 EN = "bibtexparser.model.Entry."
+EPT = "bibtexparser.entrypoint."
 PROPS = {
+    "C20": {
+        "level": "other",
+        "level_text": "Mixed. Proved (contracts on the real entry-point functions, every argument form, stacks of any length): stack construction (given stack used as given; default parse stack = resolve-string-references then remove-enclosings, then append_middleware in order; prepend_middleware in order then the default copy-mode AddEnclosing('{') write stack; both a stack and an addition -> ValueError before any middleware runs) and application: the ghost trace of Middleware.transform calls is exactly the stack, left to right, each applied to the previous result, the first to the split result / the given library, and the writer receives the last result and the given format and its text is returned. Bounded (native, labelled): parse_file / write_file (file I/O is outside the modelled subset), BlockMiddleware's per-block splice protocol, probe stacks end to end.",
+        "level_note": STD_NOTE + "; user middlewares are opaque: the virtual contract of Middleware.transform (may write anything reachable, returns a Library, records the call in a ghost trace) is ASSUMED for every override; Splitter.split and writer.write enter through interface contracts (their functional contracts belong to C01-C03 / C06); a fresh temporary list returned by a call and iterated directly is not retained elsewhere.",
+        "modules": ["schema", "writer", "entrypoint"],
+        "functions": [EPT + "_build_parse_stack#both-none", EPT + "_build_parse_stack#stack", EPT + "_build_parse_stack#append", EPT + "_build_parse_stack#both",
+                      EPT + "_build_unparse_stack#both-none", EPT + "_build_unparse_stack#stack", EPT + "_build_unparse_stack#prepend", EPT + "_build_unparse_stack#both",
+                      EPT + "parse_string#stack", EPT + "parse_string#append", EPT + "parse_string#both",
+                      EPT + "write_string#stack", EPT + "write_string#prepend", EPT + "write_string#default", EPT + "write_string#both"],
+        "native": "p20",
+        "explanation": "proved: stack construction and left-to-right application via a ghost call trace, argument forwarding to the writer, ValueError before any call when both arguments are given; bounded: file wrappers, per-block splice protocol, end-to-end probes",
+    },
     "C19": {
         "level": "other",
         "level_text": "Mixed. Proved (contracts on the real Entry methods and on Block/Field.__eq__, for every entry with distinct field keys and every key/value): each mapping operation is the ordered-dict operation on the view [(f.key, f)]: replace keeps the position, new keys append, removal closes the gap; fields_dict has the same keys in the same order; ENTRYTYPE/ID lookups; equality <=> same class and pairwise == attributes. Per-operation contracts over the representation invariant give the claim for every operation sequence. Bounded (native, labelled): operation sequences against a Python dict, single-attribute perturbation pairs, copy/deepcopy pairs, items() contents. One known finding (del of an absent key does not raise) is carved out exactly.",
